@@ -59,4 +59,46 @@ def directF (alg : Ls.Alg) (p : Problem K) (c : Reg) (sing : Bool) (l : List Nat
   | .minx _ => .ok
   | .reset => .ok
 
+/-! ### round 4: the symbolic facts are facts of the numeric problem; no free `alg`, `c`
+
+`directF` takes the algorithm, the configuration `c` and the singularity flag as parameters that nothing tied to the
+machine.  `algOf k` is the algorithm of the machine's kind, `cfgReg` the configuration the caller left (as a `Reg`),
+`FactsF alg p inp` says the symbolic size / defect / resolution facts are those the numeric solver model reports
+for `p`; `answerF`/`answerS` are then functions of `(p, caller's configuration, op)` alone. -/
+
+def algOf : Kind → Ls.Alg
+  | .chol => .chol
+  | .gso => .gso
+
+def defectF (alg : Ls.Alg) (p : Problem K) : Nat :=
+  match solverOf alg p with | .ok a => a.defect | .error _ => 0
+
+/-- the regularisation step does not throw BadRegularization for the list `l` -/
+def resolvesF (alg : Ls.Alg) (p : Problem K) (l : List Nat) : Bool :=
+  match solverOf alg { p with reg := .subset l } with
+  | .ok a => a.xErr != some .BadRegularization
+  | .error e => e != .BadRegularization
+
+structure FactsF (alg : Ls.Alg) (p : Problem K) (inp : Input) : Prop where
+  n : inp.n = p.n
+  nullity : inp.nullity = defectF alg p
+  resolves : ∀ l, inp.resolves l = resolvesF alg p l
+
+/-- the symbolic input OF a numeric problem -/
+def inputOf (alg : Ls.Alg) (p : Problem K) : Input :=
+  { n := p.n, nullity := defectF alg p, resolves := resolvesF alg p }
+
+/-- the caller's configuration as the numeric models take it (`min_x()` / constructor default = all) -/
+def cfgReg (useAll : Bool) (list : Option (List Nat)) : Reg :=
+  if useAll then .all else .subset (list.getD [])
+
+/-- chol / gso: what a fresh object returns for problem `p` under the caller's configuration -/
+def answerF (alg : Ls.Alg) (p : Problem K) (useAll : Bool) (list : Option (List Nat)) : Full.Op → DVal K :=
+  directF alg p (cfgReg useAll list) (defectF alg p != 0)
+    (if useAll then allList p.n else list.getD []) false
+
+/-- svd (`sub` = a subset is configured) -/
+def answerS (p : Problem K) (sub : Bool) (list : Option (List Nat)) : Full.Op → DVal K :=
+  directF .svd p (cfgReg (!sub) list) (defectF .svd p != 0 && sub) (if sub then list.getD [] else []) true
+
 end Gama.C04.Full
